@@ -275,6 +275,10 @@ def tracked_method(func):
         obj = self.obj_ref()
         attr = self.attr
         if obj is not None:
+            # refuse before anything is changed: the value of an object whose session is over
+            # (or which was deleted) is a snapshot
+            check = getattr(obj, '_check_attr_can_change_', None)
+            if check is not None: check(attr)
             args = tuple(TrackedValue.make(obj, attr, arg) for arg in args)
             if kwargs: kwargs = {key: TrackedValue.make(obj, attr, value) for key, value in kwargs.items()}
         result = func(self, *args, **kwargs)
